@@ -823,13 +823,12 @@ class CxxParser:
                 rawtoks.extend(self._consume_balanced_tokens(tok))
             # .. and that's it?
 
-        # this is either a parenthesized expression or a primary clause
-        elif tok.type == "(":
-            rawtoks.extend(self._consume_balanced_tokens(tok))
+        # this is a sequence of parenthesized expressions and primary clauses
         else:
             while True:
                 if tok.type == "(":
                     rawtoks.extend(self._consume_balanced_tokens(tok))
+                    tok = self.lex.token()
                 else:
                     tok = self._parse_requires_segment(tok, rawtoks)
 
